@@ -128,6 +128,19 @@ def pattern(rng, n, kind=None, density=None):
                 if rng.random() < 0.4: pat.add((i, j))
         for j in range(n):
             if rng.random() < 0.2: pat.add((rng.randrange(n), j))
+    elif kind == "arrowblocks":
+        # structurally symmetric block-diagonal: blocks of q mutually uncoupled "leaf" unknowns each coupled to every unknown of a
+        # dense clique (a relaxed supernode made of several fundamental supernodes whose top one continues past it), then a plain dense block
+        o = 0
+        while o < n:
+            q_ = rng.randint(1, 3); m_ = rng.randint(2, 9)
+            if rng.random() < 0.25: q_ = 0; m_ = rng.randint(3, 14)
+            e = min(n, o + q_ + m_)
+            for i in range(o, e):
+                for j in range(o, e):
+                    if i != j and ((i >= o + q_ and j >= o + q_) or ((i < o + q_) != (j < o + q_))):
+                        pat.add((i, j))
+            o = e
     elif kind == "blockdiag":
         b = rng.randint(2, 5)
         for j in range(n):
@@ -151,7 +164,14 @@ def random_matrix(rng, n, kind=None, vmode="float", cplx=False, dominant=False, 
         pat = set(pat) | set((i, i) for i in range(n))      # dominance needs every diagonal entry in the pattern (kinds such as randzd leave it out)
     gv = values(rng, vmode)
     if cplx:
-        vf = lambda i, j: (gv(), gv())
+        # complex entries with an exactly zero real or imaginary part are ordinary input (a real operator with a complex shift, purely
+        # imaginary couplings): per matrix, all entries general / real off-diagonal with a general diagonal / a random mixture
+        cshape = rng.choice(["full", "full", "realoff", "mixed", "imagoff"])
+        def vf(i, j):
+            if cshape == "full" or (cshape in ("realoff", "imagoff") and i == j): return (gv(), gv())
+            if cshape == "realoff": return (gv(), 0.0)
+            if cshape == "imagoff": return (0.0, gv())
+            return rng.choice([(gv(), gv()), (gv(), 0.0), (0.0, gv())])
     else:
         vf = lambda i, j: gv()
     M = from_pattern(n, pat, vf, cplx)
